@@ -559,12 +559,14 @@ String String::concat(const char* b, int n) const
 
 void String::append(const char* b, int n)
 {
+	const char* s0 = str();
+	int off = (b >= s0 && b <= s0 + _len) ? int(b - s0) : -1; // source inside this string: keep it as an offset
 	if(_len+n >= _size)
 		resize(_len+n);
 	else
 		_len += n;
 	char* s = str();
-	memcpy(s+_len-n, b, n);
+	memcpy(s+_len-n, (off >= 0) ? s + off : b, n);
 	s[_len] = '\0';
 }
 
